@@ -359,7 +359,8 @@ def hed_id_rule(body: str, lib: bool, prev: int, old: str, has_range: bool, lo: 
 
 
 # ------------------------------------------------------------------------------------------ character classes
-_EXTRA = {"": [], "blank": [32], "colon,slash": [58, 47]}     # allowedCharacter of the entry (concrete per cell)
+# allowedCharacter of the checked entry (concrete per cell) -> the characters those groups add
+_EXTRA = {"": ref.term_allowed(""), "blank": ref.term_allowed(" "), "colon,slash": ref.term_allowed(":/")}
 
 
 def _extra_key():
